@@ -29,6 +29,6 @@ def run(chk, ctx):
         tag = "" if name == "default" else "[%s]" % name
         entries = A.entries_verify() + A.entries_constructors()
         pf.run(chk, F, A, entries, "verify:" + name, allow_recursion=(), tag=tag)
-    chk.floor("panic_sites", 100)
-    chk.floor("functions_reachable", 90)
-    chk.floor("loops", 7)
+    chk.floor("panic_sites", 70)
+    chk.floor("functions_reachable", 65)
+    chk.floor("loops", 3)
